@@ -70,6 +70,21 @@ NOT_SAT = ("postcondition not satisfied", "precondition not satisfied", "invaria
            "index out of bounds", "unreachable", "call to non-returning function")
 
 
+def _our_span(s):
+    """the span itself if it lies in the unit file, else the outermost macro call site that does, else None"""
+    cur = s
+    for _ in range(12):
+        if "/" not in (cur.get("file_name") or ""):
+            if cur is not s:
+                cur = dict(cur, is_primary=s.get("is_primary"), label=s.get("label"))
+            return cur
+        exp = cur.get("expansion")
+        if not exp or not exp.get("span"):
+            return None
+        cur = exp["span"]
+    return None
+
+
 def classify(unit, diags):
     """-> (failed: {obl: [diag summaries]}, unattributed: [summaries], hard_errors: [summaries])"""
     failed, unattr, hard = {}, [], []
@@ -91,9 +106,10 @@ def classify(unit, diags):
             hard.append(summary)
             continue
         hit = set()
+        # a span inside vstd / core (the `requires` of a panic spec, the body of `unreachable!`): its line numbers are
+        # not ours - follow the macro expansion chain back to the call site in the unit file, else drop it
+        spans = [x for x in (_our_span(s) for s in spans) if x is not None]
         for s in spans:
-            if "/" in (s.get("file_name") or ""):
-                continue  # a span inside vstd (e.g. the `requires` of a panic spec): its line numbers are not ours
             if (s.get("label") or "").startswith("at the end of the function body"):
                 continue  # covers the whole body: would blame every tagged hint inside it for a failed postcondition
             for ln in range(s.get("line_start", 0), s.get("line_end", 0) + 1):
@@ -101,7 +117,8 @@ def classify(unit, diags):
                     hit.add(name)
         # which function does the failure sit in?
         fn = None
-        prim = [s for s in spans if s.get("is_primary")] or spans
+        ours = [s for s in spans if "/" not in (s.get("file_name") or "")]
+        prim = [s for s in ours if s.get("is_primary")] or ours or [s for s in spans if s.get("is_primary")] or spans
         if prim:
             fn = fn_at_line(unit, prim[0].get("line_start", 0))
         summary["function"] = fn
